@@ -63,7 +63,27 @@ def _mk_wl(wl, records):
 
 def main():
     warnings.simplefilter("ignore")
-    job = json.load(sys.stdin)
+    import logging
+
+    logging.disable(logging.CRITICAL)
+    if "--batch" in sys.argv:
+        import io
+
+        jobs = json.load(sys.stdin)
+        outs = []
+        for job in jobs:
+            buf = io.StringIO()
+            try:
+                run_job(job, buf)
+                outs.append(json.loads(buf.getvalue()))
+            except BaseException as e:  # noqa
+                outs.append({"error": "worker: " + repr(e)[:300]})
+        json.dump(outs, sys.stdout)
+        return
+    run_job(json.load(sys.stdin), sys.stdout)
+
+
+def run_job(job, stdout):
     import numpy as np
     import robotools
     from pyvc import native_spec as NSP
@@ -82,7 +102,7 @@ def main():
         outcome = "return"
     except BaseException as e:  # noqa
         if isinstance(e, (NameError, SyntaxError, ImportError)) and e.__traceback__.tb_next is None:
-            json.dump({"error": "replay job broken: " + repr(e)}, sys.stdout)
+            json.dump({"error": "replay job broken: " + repr(e)}, stdout)
             return
         result = None
         outcome = "raise:" + type(e).__name__
@@ -140,7 +160,7 @@ def main():
                         out["failed"].append(f"raises[{ename}]")
                 except Exception as e:  # noqa
                     out["detail"][f"raises[{ename}]"] = "clause evaluation error: " + repr(e)
-    json.dump(out, sys.stdout)
+    json.dump(out, stdout)
 
 
 if __name__ == "__main__":
